@@ -232,3 +232,20 @@ Example C03_nonvacuous :
   ord (insts s') 1 4 = None /\ ord (insts s') 0 5 = None /\
   au_errors a = [KIndex; KIndex; KTerminated] /\ au_outputs a = [].
 Proof. vm_compute. repeat split; reflexivity. Qed.
+
+(** Link between the proof side and the correspondence side: the oracle of Corr/C03.v is no
+    stricter than the model.  For every well-formed case whose steps are in scope, if the model
+    reproduces the observation ([corr_b]) then the oracle accepts it ([prop_b]).
+    PARTIAL — what is missing: steps that are CancelOrders commands (process or direct action) and
+    the degenerate environment op [OpSetLink _ SNoIndex] are outside [case_in_scope].  For a
+    CancelOrders command the code iterates a hash map, so [corr_b] compares report and mailboxes as
+    multisets, while the oracle additionally demands that each mailbox holds the reported requests
+    in the reported order: a relation between two observed values that multiset agreement with
+    the model does not imply — there the oracle is deliberately stricter and the implication does
+    not hold.  Every other step kind (all events, the other three commands incl. ClosePositions
+    with default or scripted strategy, direct generate / action, link changes) is covered. *)
+From BV Require Import Corr.C03 Proofs.OracleC03.
+Theorem C03_oracle_sound_partial : forall c,
+  valid_case c = true -> case_in_scope c = true -> corr_b c = true -> prop_b c = true.
+Proof. exact oracle_sound_C03. Qed.
+Print Assumptions C03_oracle_sound_partial.
